@@ -22,10 +22,21 @@
                       acknowledgements of writes, which carry no fragment - goes into the fragment set
                TRUE   the repaired action: only RP fragments do
 
+     fix.head  FALSE  _get_schedule as in the code: when the change counter has gone up, only slot 1 of the cached
+                      fragment set is emptied ("if 1st frag valid: schedule very likely unchanged") and fragment 1
+                      alone is fetched again
+               TRUE   a repaired action: the whole cached set is dropped
+
    Abstractions (also listed in checks/c18_NOTES.md):
      * a zone's schedule content is a version id c (0,1,2,...); a fragment is (c, k, n) with
-       n = NFrags(c); a complete set decodes iff all fragments carry one version
+       n = NFrags(c); a complete set decodes iff its fragments are those of one version
        (ZlibDetects = the compression checksum rejects a mix; assumption, owned by C17);
+     * an edit need not change every fragment: the compressed stream of version c may start with the same bytes
+       as that of version c-1 (an edit late in the week), and other stretches may coincide too.  sh[c] = the
+       positions at which the fragment of version c is byte-identical with that of version c-1 ({}: every
+       fragment differs; never the last one: it carries the checksum).  A slot holds bytes, not a version: the
+       value in a slot is Rep(sh, c, k), the *earliest* version whose k-th fragment has these bytes.  With
+       sh = all {} a slot value is simply the version;
      * one exchange (RQ/RP or W/I through the QoS layer) is atomic: ok | lost (request never
        reached the controller; send raises) | rlost (request reached the controller, replies lost;
        send raises);
@@ -36,8 +47,8 @@ EXTENDS Integers, Sequences, FiniteSets, TLC
 NoneV  == -1      \* None: no version known / no schedule / empty slot
 Mixed  == -2      \* a schedule decoded from fragments of two versions
 Ack    == -4      \* a write acknowledgement (I|0404: fragment header, no fragment) sitting in a slot
-AsIs   == [lock |-> FALSE, ack |-> FALSE, stale |-> FALSE]
-Fixed  == [lock |-> TRUE, ack |-> TRUE, stale |-> TRUE]
+AsIs   == [lock |-> FALSE, ack |-> FALSE, stale |-> FALSE, head |-> FALSE]
+Fixed  == [lock |-> TRUE, ack |-> TRUE, stale |-> TRUE, head |-> FALSE]   \* (the three repairs made in /repo so far)
 NoZone == 0
 
 NFrags(c) == IF c >= 2 THEN 3 ELSE 2             \* shared convention with the harness (checks/c18.py); never shrinks
@@ -64,21 +75,28 @@ HasNone(ps)    == \E i \in 1..Len(ps) : ps[i] = NoneV
 FirstNone(ps)  == CHOOSE i \in 1..Len(ps) : ps[i] = NoneV /\ \A j \in 1..(i - 1) : ps[j] # NoneV
 InitSet(c, k, n) == [i \in 1..n |-> IF i = k THEN c ELSE NoneV]
 
+\* codec facts, a record cod = [zlib, sh]:  zlib = ZlibDetects;  sh = positions shared with the previous version
+NoShare == [c \in 0..7 |-> {}]
+RECURSIVE Rep(_, _, _)
+Rep(sh, c, k) == IF c > 0 /\ c \in DOMAIN sh /\ k \in sh[c] THEN Rep(sh, c - 1, k) ELSE c   \* the bytes of fragment k of version c
+Pure(ps, sh)  == LET c == ps[Len(ps)] IN c >= 0 /\ \A i \in 1..Len(ps) : ps[i] = Rep(sh, c, i)
+
 \* _proc_payload_set on a set without None: decompress
 HasAck(ps) == \E i \in 1..Len(ps) : ps[i] = Ack
-Decode(ps, zlibDetects) ==
-    IF \A i \in 1..Len(ps) : ps[i] = ps[1] THEN ps[1]
-    ELSE IF zlibDetects THEN NoneV ELSE Mixed
+Decode(ps, cod) ==
+    IF Pure(ps, cod.sh) THEN ps[Len(ps)]                   \* exactly the fragments of one version (the last fragment always differs)
+    ELSE IF \A i \in 1..Len(ps) : ps[i] = ps[1] THEN ps[1]
+    ELSE IF cod.zlib THEN NoneV ELSE Mixed
 
 \* _update_payload_set(payload_set, payload) -> <<payload_set', _full_schedule', raised>>
 \* raised: payload[SZ_FRAGMENT] -> KeyError in _proc_payload_set (an acknowledgement has no
 \* fragment); the slot has already been written in place
-Update(ps, full, c, k, n, zd) ==
+Update(ps, full, c, k, n, cod) ==
     IF n # Len(ps) THEN <<InitSet(c, k, n), full, FALSE>>                \* sched has changed
     ELSE LET ps2 == [ps EXCEPT ![k] = c] IN
          IF HasNone(ps2) THEN <<ps2, full, FALSE>>
          ELSE IF HasAck(ps2) THEN <<ps2, full, TRUE>>
-         ELSE LET d == Decode(ps2, zd) IN
+         ELSE LET d == Decode(ps2, cod) IN
               IF d # NoneV THEN <<ps2, d, FALSE>> ELSE <<InitSet(c, k, n), full, FALSE>>
 
 Done(G, z, exit, res) == SetZ(G, z, [Z(G, z) EXCEPT !.pc = "done", !.exit = exit, !.res = res])
@@ -94,7 +112,9 @@ Fail(G, z, why, fix) ==
 
 BeginFrags(G, z, fix) ==                              \* self._payload_set[0] = None ; loop
     LET r == Z(G, z) IN                                   \* (fix.stale: and self._full_schedule = {})
-    SetZ(G, z, [r EXCEPT !.pset = [r.pset EXCEPT ![1] = NoneV], !.pc = "w_frag",
+    SetZ(G, z, [r EXCEPT !.pset = IF fix.head THEN [i \in 1..Len(r.pset) |-> NoneV]    \* (fix.head: every slot)
+                                  ELSE [r.pset EXCEPT ![1] = NoneV],
+                         !.pc = "w_frag",
                          !.full = IF fix.stale THEN NoneV ELSE r.full])
 
 AfterLock(G, z, fix) ==
@@ -135,10 +155,11 @@ StartGet(G, z, force, tid, fix) ==
                   ELSE AfterDated(G1, z, FALSE, FALSE, fix)
          ELSE SetZ(G0, z, [r0 EXCEPT !.pc = "w_v1"])
 
-\* set_schedule(schedule of version wr)
-StartSet(G, z, wr, tid, fix) ==
-    LET r0 == [NewXfer(Z(G, z), "set", FALSE, tid) EXCEPT !.wr = wr, !.nfr = NFrags(wr)] IN
+\* set_schedule(schedule of version wr, which makes nfr fragments)
+StartSetN(G, z, wr, nfr, tid, fix) ==
+    LET r0 == [NewXfer(Z(G, z), "set", FALSE, tid) EXCEPT !.wr = wr, !.nfr = nfr] IN
     TryLock(SetZ(G, z, r0), z, fix)
+StartSet(G, z, wr, tid, fix) == StartSetN(G, z, wr, NFrags(wr), tid, fix)
 
 \* the awaited RP|0006 arrived (change counter = ctr)
 OnVer(G, z, ctr, fix) ==
@@ -152,9 +173,9 @@ OnVer(G, z, ctr, fix) ==
           [] OTHER -> G
 
 \* the awaited RP|0404 arrived: fragment k of n, content version c
-OnFrag(G, z, c, k, n, zd, fix) ==
+OnFrag(G, z, c, k, n, cod, fix) ==
     LET r  == Z(G, z)
-        u  == Update(r.pset, r.full, c, k, n, zd)
+        u  == Update(r.pset, r.full, c, k, n, cod)
         r1 == [r EXCEPT !.pset = u[1], !.full = u[2], !.n = @ + 1]
     IN  IF r.pc # "w_frag" THEN G
         ELSE IF u[3] THEN Fail(SetZ(G, z, r1), z, "err", fix)        \* KeyError leaves _get_schedule
@@ -171,15 +192,15 @@ OnPutAck(G, z) ==
     ELSE SetZ(G, z, [r EXCEPT !.pc = "w_sv"])
 
 \* Schedule._handle_msg for an 0404 fragment seen by the dispatcher (overheard, duplicate, late)
-Heard(G, z, c, k, n, zd) ==
+Heard(G, z, c, k, n, cod) ==
     IF G.lock = z THEN G
     ELSE LET r == Z(G, z)
-             u == Update(r.pset, r.full, c, k, n, zd)
+             u == Update(r.pset, r.full, c, k, n, cod)
          IN  SetZ(G, z, [r EXCEPT !.pset = u[1], !.full = u[2]])
 
 \* Schedule._handle_msg for an I|0404 (acknowledgement of fragment k of n of a write)
-HeardAck(G, z, k, n, zd, fix) ==
-    IF fix.ack THEN G ELSE Heard(G, z, Ack, k, n, zd)
+HeardAck(G, z, k, n, cod, fix) ==
+    IF fix.ack THEN G ELSE Heard(G, z, Ack, k, n, cod)
 
 Heard6(G, ctr) == [G EXCEPT !.m6 = ctr, !.fresh = TRUE]   \* ScheduleSync._handle_msg
 Age(G)         == [G EXCEPT !.fresh = FALSE]              \* 3 minutes pass
